@@ -126,6 +126,21 @@ def scripts_upto(fam, allm, d):
     ms = dialogue.expected_metrics(fam, allm)
     menus = dict((m, menu(fam, m)) for m in ms)
     yield {}
+    # scale: 1,500 refused answers at one question before a legal one (a re-ask implemented by
+    # recursion, a bounded retry counter, a growing buffer ...), and the same at every question
+    for m in ms:
+        yield {m: ["?"] * 1500 + [T.METRICS[fam][m][-1]]}
+    yield dict((m, ["", "?", "-"] * 40 + [T.METRICS[fam][m][0]]) for m in ms if T.ND[fam] not in T.METRICS[fam][m])
+    for m in ms[:2] + ms[-2:]:
+        last, first_v = T.METRICS[fam][m][-1], T.METRICS[fam][m][0]
+        # an answer line longer than any buffer: the whole line is ONE answer
+        yield {m: ["Q" * 1024 + last, first_v]}
+        yield {m: [" " * 5000 + last.lower() + " " * 5000, first_v]}
+        yield {m: [last + " " * 1100 + "zzz", first_v]}
+        yield {m: [" " * 1100 + "zzz" + last, first_v]}
+    # 1,500 empty answers at a question that has no Not Defined value
+    for m in [m for m in ms if T.ND[fam] not in T.METRICS[fam][m]][:1]:
+        yield {m: [""] * 1500 + [T.METRICS[fam][m][-1]]}
     for r in range(1, d + 1):
         for combo in itertools.combinations(ms, r):
             for choice in itertools.product(*[menus[m] for m in combo]):
